@@ -22,10 +22,12 @@ pub(super) struct State {
     /// Only updated on on ref dec and acquired before drop
     synchronize: Synchronize,
 
-    /// Tracks access to the arc object
-    last_ref_inc: Option<Access>,
+    /// Tracks access to the arc object. Clones are not ordered with each
+    /// other and neither are inspections, so the most recent one of every
+    /// thread is kept; drops are totally ordered.
+    last_ref_inc: Vec<Access>,
     last_ref_dec: Option<Access>,
-    last_ref_inspect: Option<Access>,
+    last_ref_inspect: Vec<Access>,
 }
 
 /// Actions performed on the Arc
@@ -52,9 +54,9 @@ impl Arc {
                 ref_cnt: 1,
                 allocated: location,
                 synchronize: Synchronize::new(),
-                last_ref_inc: None,
+                last_ref_inc: Vec::new(),
                 last_ref_dec: None,
-                last_ref_inspect: None,
+                last_ref_inspect: Vec::new(),
             });
 
             trace!(?state, %location, "Arc::new");
@@ -173,22 +175,26 @@ impl State {
     /// dependent with inspections in both directions. Drops are dependent
     /// between each other, clones are not.
     pub(super) fn for_each_dependent_access(&self, action: Action, mut f: impl FnMut(&Access)) {
-        let (first, second) = match action {
-            Action::RefInc => (&self.last_ref_inspect, &None),
-            Action::RefDec => (&self.last_ref_dec, &self.last_ref_inspect),
-            Action::Inspect => (&self.last_ref_inc, &self.last_ref_dec),
-        };
-
-        for access in first.iter().chain(second.iter()) {
-            f(access);
+        match action {
+            Action::RefInc => self.last_ref_inspect.iter().for_each(f),
+            Action::RefDec => {
+                self.last_ref_dec.iter().for_each(&mut f);
+                self.last_ref_inspect.iter().for_each(f);
+            }
+            Action::Inspect => {
+                self.last_ref_inc.iter().for_each(&mut f);
+                self.last_ref_dec.iter().for_each(f);
+            }
         }
     }
 
     pub(super) fn set_last_access(&mut self, action: Action, path_id: usize, version: &VersionVec) {
         match action {
-            Action::RefInc => Access::set_or_create(&mut self.last_ref_inc, path_id, version),
+            Action::RefInc => Access::set_in_unordered(&mut self.last_ref_inc, path_id, version),
             Action::RefDec => Access::set_or_create(&mut self.last_ref_dec, path_id, version),
-            Action::Inspect => Access::set_or_create(&mut self.last_ref_inspect, path_id, version),
+            Action::Inspect => {
+                Access::set_in_unordered(&mut self.last_ref_inspect, path_id, version)
+            }
         }
     }
 }
